@@ -139,3 +139,5 @@ func scratchDone(dir string) {
 }
 
 func symClock(on bool) {}
+
+func pickU64(x uint64) uint64 { return x }
